@@ -22,7 +22,7 @@ NonCodeReq(n, code) == [i |-> n, mode |-> "text", kind |-> "noncode", lang |-> c
 \* for the language itself: every pair of alphabet words (article + scale word, scale word plurals, ...)
 PairsOf(L2) == LET W == Words[L2] n == Len(W) IN [j \in 1..(n * n) |-> W[((j - 1) \div n) + 1] \o " " \o W[((j - 1) % n) + 1]]
 TextsOf(L2, salt) == LET W == Words[L2] IN
-   [j \in 1..Len(W) |-> W[j]] \o AmbigParts[L2]
+   [j \in 1..Len(W) |-> W[j]] \o AmbigParts[L2] \o BigParts[L2]
    \o [r \in 1..Params.randn |-> RandText(W, Seps, Start(Seed, salt, r), 2 + (r % 5))]
 WordSeqs(L2, salt) == LET W == Words[L2] IN
    [r \in 1..Params.randn |-> RandWords(W, Start(Seed, salt + 13, r), 2 + (r % 4))]
